@@ -168,11 +168,22 @@ def line_engine(cid, P, tier, seed, replay, t0, obligations, discharged, assum_r
             open(rp + '.why', 'w').write(f'correspondence {cid} broken on this operation sequence at step {k} (`{ops[k] if k < len(ops) else "?"}`):\n  implementation: {sa[k] if k < len(sa) else "<end>"}\n  model:          {sb[k] if k < len(sb) else "<end>"}\n'
                                          'the observation (live entities / returned values after every operation) is fully determined by the theorems of ' + cid + ', so this sequence is a failing input\n')
             violations.append(('input', rp, f'step {k}: impl `{sa[k] if k < len(sa) else "<end>"}` vs model `{sb[k] if k < len(sb) else "<end>"}`'))
+    stress = None
+    if eng == 'c10' and tier == 'thorough' and harness_ok and not replay:
+        # free-running threads: workers drop clones while the main thread collects (model-free end-of-round oracle)
+        p = subprocess.run([os.path.join(HARNESS, 'target', 'debug', 'harness'), 'c10', 'stress', '3000', str(seed)],
+                           stdout=subprocess.PIPE, stderr=subprocess.DEVNULL, timeout=1200, text=True)
+        stress = (p.stdout or '').strip().split('\n')[-1]
+        if not stress.startswith('stress ok'):
+            rp = os.path.join(REPLAYS, f'{cid}-stress-{seed}.txt')
+            open(rp, 'w').write(f'harness c10 stress 3000 {seed}\n{stress}\n(thread schedule dependent: re-run the command; the round and the violated clause are named above)\n')
+            violations.append(('input', rp, stress))
     wall = time.time() - t0
     ev = {'property_id': cid, 'tier': tier, 'seed': seed, 'level': 'proof',
           'coverage': {'obligations': len(obligations), 'discharged': discharged,
                        'checker_cmd': 'make -C /verif/coq -j16 (coqc 8.16.1, full .vo) ; coqc Print Assumptions per theorem',
                        'trusted_base': props.TRUSTED_BASE, 'theorems': obligations, 'assumptions': assum_report,
+                       'concurrent_stress': stress,
                        'programs': stats['programs'], 'disagreements_checked': stats['programs'], 'disagreements': stats['disagreements'],
                        'traces_validated_against_impl': stats['programs'] - stats['disagreements'],
                        'evaluations': stats['programs'], 'distinct_nontrivial': len(set(lines)),
